@@ -225,6 +225,41 @@ def write_event_rule(chk, P, key):
     chk.ob(key, "recovery separator under the flag; flag set before and cleared only after a successful write_all of the event", r4)
 
 
+def flush_sync_sites(P, cb):
+    """(flush site, sync site) in the worker body: the Write::flush / sync_all calls themselves, or - when both were extracted into one helper
+    taking the file - the call of that helper for both (the helper is summarised: it flushes, then syncs only if the flush succeeded, and
+    returns the sync's outcome).  None when neither shape is found."""
+    fl = [c for c in cb.calls(normal_only=True) if c.callee.get("name") == "flush" and c.callee.get("trait") == "std::io::Write"]
+    sy = [c for c in cb.calls(normal_only=True) if c.callee.get("name") == "sync_all"]
+    if len(fl) == 1 and len(sy) == 1:
+        return fl[0], sy[0]
+    if fl or sy:
+        return None
+    for c in cb.calls(normal_only=True):
+        tgt = c.callee.get("resolved") or c.callee.get("path")
+        if not tgt or not P.has_body(tgt) or P.body(tgt).crate != "emit_file":
+            continue
+        hb = P.body(tgt)
+        hf = [x for x in hb.calls(normal_only=True) if x.callee.get("name") == "flush" and x.callee.get("trait") == "std::io::Write"]
+        hs = [x for x in hb.calls(normal_only=True) if x.callee.get("name") == "sync_all"]
+        if len(hf) == 1 and len(hs) == 1 and hb.dominates(hf[0].bb, hs[0].bb) and _q_success_guard(hb, hs[0].bb, hf[0].bb):
+            leaves, sync_returned = [hb.origin(0)], False
+            for _ in range(20):
+                if not leaves:
+                    break
+                x = leaves.pop()
+                if x[0] == "phi":
+                    leaves.extend(x[1])
+                    continue
+                r0 = mir.o_root(x)
+                if r0[0] == "call" and r0[1].bb == hs[0].bb:
+                    sync_returned = True
+            sync_returned = sync_returned or any(_q_success_guard(hb, rb, hs[0].bb) for rb in hb.return_blocks())
+            if sync_returned:
+                return c, c
+    return None
+
+
 def sync_before_ok(P):
     cb = main_closure(P)
     oks = [(bb, s) for bb, j, s in cb.statements(normal_only=True)
@@ -305,7 +340,8 @@ def run(chk):
               mir.o_field_path(cb.origin(c.args[0]))[1][-1:] == ["active_file"]]
         if len(tk) != 1 or cb.count_on_paths({tk[0].bb})[0] < 1:
             return False, "the active file must be taken (self.active_file.take()) on every path at entry", [], cb.span
-        sy = [c for c in cb.calls(normal_only=True) if c.callee.get("name") == "sync_all"]
+        fs = flush_sync_sites(P, cb)
+        sy = [fs[1]] if fs else []
         writes = []
         for bb, j, s in cb.statements(normal_only=True):
             if s["k"] == "assign" and "p" in s["place"] and [p.get("n") for p in s["place"]["p"] if isinstance(p, dict) and "f" in p][-1:] == ["active_file"]:
@@ -362,9 +398,10 @@ def run(chk):
         hands the batch back (BatchError::retry(err, batch)); dropping it there loses events that were never written, in particular the
         batch that is being written again after a mid-write failure (its poisoned file forces a new one to be created)."""
         cb = main_closure(P)
-        fl = [c for c in cb.calls(normal_only=True) if c.callee.get("name") == "flush"]
-        if not fl:
+        fs = flush_sync_sites(P, cb)
+        if not fs:
             raise mir.AnchorMissing("the flush call of Worker::on_batch")
+        fl = [fs[0]]
         ev = []
         for x in [cb] + P.closures_of(cb):
             for c in x.calls(normal_only=True):
@@ -386,6 +423,7 @@ def run(chk):
                     used = [m for m in cb.calls(normal_only=True) if m.callee.get("name") == "map_err" and len(m.args) > 1 and
                             (lambda o: o[0] == "agg" and o[1].get("def") == x.key)(cb.origin(m.args[1]))]
                     if not used or not all(mir.o_is_call(cb.origin(m.args[0]), name="flush") or mir.o_is_call(cb.origin(m.args[0]), name="sync_all") or
+                                           (cb.origin(m.args[0])[0] == "call" and cb.origin(m.args[0])[1].bb in (fs[0].bb, fs[1].bb)) or
                                            any(cb.dominates(f.bb, m.bb) for f in fl) for m in used):
                         return False, ("the worker gives a batch up for good (BatchError::no_retry in %s) for a failure other than the final flush / sync" % x.key), [], c.loc
                 ev.append(c.loc)
@@ -564,7 +602,8 @@ def run(chk):
     def r8_exits():
         cb = main_closure(P)
         adv = cb.calls_to(path="emit_file::EventBatch::advance")
-        sy = [c for c in cb.calls(normal_only=True) if c.callee.get("name") == "sync_all"]
+        fs = flush_sync_sites(P, cb)
+        sy = [fs[1]] if fs else []
         if len(adv) != 1 or len(sy) != 1:
             raise mir.AnchorMissing("advance / sync_all in the worker")
         a, s = adv[0], sy[0]
